@@ -32,7 +32,7 @@ PATHS = ["/a", "/b", "/g/x", "/g/y", "/h", "/k/deep/z"]
 
 def plan(tier, seed):
     n = 16 if tier == "quick" else 48
-    per = 12 if tier == "quick" else 40
+    per = 12 if tier == "quick" else 150
     return [{"kind": "hist", "sub": i, "cases": per} for i in range(n)]
 
 
